@@ -37,13 +37,13 @@ CLAIMED = {
          "unmetered iff both rates are zero, cbs/pbs/ebs at least the configured minimum of the QFI and at least floor(rate x duration) (exact limb arithmetic), and the QER represented in "
          "sessionQERLookup is referenced by every PDR of the session (existential choice of the session-level QER that explains all three tables). Besides seeded random sessions with boundary rates and "
          "per-QFI burst configurations, the session shapes (2-3 PDRs x every ordered QER list over three ids x GBR / MBR patterns; 278 528 shapes) are enumerated: a seed-dependent stride in the quick tier, all of them in the thorough tier.",
-         "UP4 meters are judged by C04 once built; re-labelling after QER-creating/updating modifications is the listed known finding F-QER-RELABEL (named slack). " + TRUST,
+         "UP4 shards: Up4Image!PeakRatesOK judges the app_meter / session_meter cells on the path of every forwarded PDR (each QER's MBR x 125 is held by a cell the PDR's entries name, and no cell on the path holds anything else; burst >= 10 ms at that rate), the traffic class and gates are part of C04; re-labelling after QER-creating/updating modifications on BESS is the listed known finding F-QER-RELABEL (named slack). " + TRUST,
          "5 C09"),
  "C14": ("TLA+ R-spec Pfcp!EndMarkersDue: TLC compares the decoded packets of the end-marker socket with the markers due for the pre-update session state",
          "Every packet the real agent writes to the end-marker unixpacket socket is decoded (Ethernet/IPv4/UDP/GTPv1-U) and TLC checks, per Session Modification, that the multiset of markers equals "
          "EndMarkersDue (one per updated existing FAR with SNDEM, old peer address, old TEID, source address of the old interface), UDP 2152->2152, GTP message type 254, none for flag off / unknown FAR id / "
          "rejected modification / creation / end markers disabled, and that each marker arrives after the held farLookup add was acknowledged.",
-         "BESS datapath only so far (UP4 PacketOut pending); ordering is observed by delaying the FAR programming by 25 ms. " + TRUST,
+         "Both datapaths: on UP4 the markers are the packet-outs received by the harness' P4Runtime switch, 'after programming' = after the last Write RPC of the request was answered; on BESS ordering is observed by delaying the FAR programming by 25 ms. Markers due form a bag (several updated rules may have used the same tunnel). " + TRUST,
          "5 C14"),
  "C06": ("TLA+ IPPool (set-based R-level allocator; FIFO I-model refining it, complete graphs) + TraceC06: TLC validates every recorded call of the real IPPool, with linearisation search for concurrent histories",
          "Library level against the real pfcpiface.IPPool: (seq) every sequence of L calls over {alloc, free} x 3 sessions on a /30 pool - bounded-exhaustive at the implementation (L=5 quick, 7 thorough); "
@@ -57,7 +57,7 @@ CLAIMED = {
          "have addresses are executed against the real agent process, preceded by accepted and rejected requests (also ones rejected mid-way: second Create PDR without FAR ID, Remove of an unknown id after applied removes); "
          "TLC evaluates NoDatapathResidue on the BESS tables and, on the guarded read-only snapshot, SessionRecordsForgotten, AddressesReturned, TeidsReturned and GaugeCountsLiveSessions against the reference state, "
          "plus AddressInPoolAndExclusive on every address handed out (so a pool that leaks is also seen as an illegal refusal).",
-         "BESS datapath only so far (UP4 pools are part of C04/C15 once built); heartbeat / time-out endings use short timers (60 ms / 1 s). " + TRUST,
+         "Both datapaths: UP4 shards run the UP4 generator with the same snapshot invariants plus NoUp4Residue (when no session is live nothing but the interfaces entries is left in the switch, no meter cell configured); the UP4 identifier pools are judged by C15; heartbeat / time-out endings use short timers (60 ms / 1 s). " + TRUST,
          "5 C05"),
  "C07": ("TLA+ R-spec Pfcp (SeidLegal, TeidLegal, image of CHOOSE PDRs): TLC judges every establishment of the real agent under adversarial SEID-source outputs, TEID cursor wrap-around and concurrent bursts",
          "The guarded hooks feed the per-association random source with adversarial sequences (immediate repeat, repeat of a deleted session's id, zero, 99 and 100 consecutive collisions) and position the TEID cursor "
@@ -77,7 +77,7 @@ CLAIMED = {
          "Real HTTP against the agent process (BESS datapath): every method x body class (valid, empty, not JSON, wrong types, truncated body on a half-closed connection), every unit x boundary rates around "
          "2^63 / unit, seeded 64-bit rates and bursts. TLC checks StatusAsSpecified (201 / 4xx / 405), SingleResponse (no superfluous WriteHeader), RejectedLeavesDatapathUntouched (no sliceMeter command) and "
          "ProgramsWhatWasPosted (pir = floor(converted bps / 8), cir 1, metered gate, pbs = posted burst or the default) exactly for non-zero rates whose conversion fits 63 bits.",
-         "UP4 slice/TC meter cell pending with the UP4 checks; a second header write is observed through net/http's log line. " + TRUST,
+         "Both datapaths: on UP4 the one slice_tc_meter cell at (slice << 2) + default TC must hold floor(max(UL, DL) bps / 8) bytes/s and the burst posted for that direction (asserted when both rates are non-zero and fit 63 bits; bursts of 2^63 bytes or more have no P4Runtime representation and are not constrained); a second header write is observed through net/http's log line. " + TRUST,
          "5 C19"),
  "C18": ("TLA+ R-spec Config (Validated, DefaultsFilled over document classes) + TraceC18: TLC judges every outcome of the real LoadConfigFile on schema-generated documents, comment placements and byte strings",
          "Library level against the exported loader: documents generated from the schema (14 fields x classes absent / valid / boundary / invalid / wrong JSON type; every single-field variation of four base "
@@ -97,7 +97,7 @@ CLAIMED = {
          "(one thorough shard uses the real 20 s) and gaps are clearly inside (<= 0.5 x) or clearly outside (>= 1.5 x) it. TLC checks ReportForwardedWhenDue (first report never suppressed; forwarded again once the interval has passed), "
          "NoneForUnknownOrSilentSessions, AtMostOncePerInterval and ReportRequestShape (CP SEID in the header, fresh sequence number, Downlink Data Report naming a downlink PDR of the session). "
          "Notifier.tla (as coded) is model-checked for all report/tick sequences of 3 sessions, interval 3, 8 ticks.",
-         "One association (the code documents multi-association routing as unimplemented); BESS notify socket only so far (UP4 digests pending); time stamps are the harness' clock with 0.5x / 1.5x margins. " + TRUST,
+         "One association (the code documents multi-association routing as unimplemented); both datapaths (every third shard: digests with the UE address sent by the harness' P4Runtime switch); time stamps are the harness' clock with 0.5x / 1.5x margins. " + TRUST,
          "5 C13"),
  "C20": ("TLA+ R-spec RouteControl (kernel routes / resolved next hops -> required module graph) + TraceC20: TLC judges the module graph after every event of bounded-exhaustive kernel histories replayed into the real Python handlers",
          "conf/route_control.py is loaded from /repo under stand-ins for pyroute2, pybess and scapy (the real BessController wrapper runs on a recording BESS class with bessd's EEXIST / ENOENT / EBUSY semantics). "
